@@ -244,11 +244,38 @@ def pos_slices(ctx, n, m, lkind, via, under=None):
     return ctx.done(ctx.AND(*oks), obs)
 
 
+def width_unsigned(ctx, ukind, order):
+    """decided by its real-stack replay (dtype widths are not modelled): a monotonic axis stored as unsigned integers, where
+    negation and differences wrap; the label slice is still the inclusive bounding box"""
+    np = ctx.np
+    lab = [10, 20, 30, 40, 50] if order == 'inc' else [50, 40, 30, 20, 10]
+    a = ctx.da.DimArray(np.array([float(l) / 10 for l in lab]), axes=[np.array(lab, dtype=ukind)], dims=['x'])
+    oks = []
+    obs = []
+    for lo, hi, step in ((15, 45, None), (20, 40, None), (None, 35, None), (25, None, None), (15, 45, -1), (10, 50, -2), (0, 60, None), (41, 49, None), (20, 40, 2)):
+        if order == 'inc':
+            sl = slice(lo, hi, step) if (step is None or step > 0) else slice(hi, lo, step)
+        else:
+            sl = slice(hi, lo, step) if (step is None or step > 0) else slice(lo, hi, step)
+        r = ctx.call(lambda: a[sl])
+        if r[0] != 'ok':
+            return ctx.done(False, r[1])
+        keep = [l for l in lab if (lo is None or lo <= l) and (hi is None or l <= hi)]
+        if step is not None:
+            keep = keep[::-1][::-step] if step < 0 else keep[::step]
+        obs.append(ctx.observe(r[1]))
+        oks.append(r[1].axes['x'].values.tolist() == keep and r[1].values.tolist() == [float(l) / 10 for l in keep])
+    return ctx.done(all(oks), obs)
+
+
 def templates():
     ts = []
 
     def add(name, fn, tier='quick', cost=1.0, **params):
         ts.append({'name': name, 'fn': fn, 'params': params, 'tier': tier, 'cost': cost})
+    for uk in ('uint8', 'uint16', 'uint64'):
+        for order in ('inc', 'dec'):
+            add('width-unsigned-%s-%s' % (uk, order), 'width_unsigned', cost=0.1, ukind=uk, order=order)
     # monotonic numeric axes, bounds anywhere
     for lkind, bkind in (('i', 'i'), ('f', 'f'), ('i', 'f')):
         for n in (0, 1, 2, 3, 4, 5):
